@@ -16,6 +16,57 @@ CHECKS = {
             "exhaustiveness claimed.",
             "Trusts numpy/TF single-file decoding and the harness' own "
             "FlatBuffers walker; sessions that raise are C08's.", "5 C10"),
+    "C04": ("exploration",
+            "Hypothesis-generated session histories; invariant after every "
+            "session: independent plain-json walk + per-file decoding vs the "
+            "exactness clauses",
+            "Generated histories of completed sessions (root/new/reused/"
+            "nested/ancestor sub-directory fillers, in-process and real "
+            "multi-process multi-writer calls, reopen or keep) with the "
+            "statement's exactness clauses checked after every session by a "
+            "walker that shares no code with sedpack's pydantic models; "
+            "sampled histories, no exhaustiveness.",
+            "Trusts json, numpy/TF single-file decoders and the harness' "
+            "FlatBuffers walker; sessions that raise are reported by C08.",
+            "5 C04"),
+    "C05": ("fault_enumeration",
+            "fault injection on generated committed datasets (bit flips, "
+            "truncation, extension, deletion, sibling swap, rollback) with a "
+            "reference-digest metamorphic oracle; exhaustive offset sweep per "
+            "dataset",
+            "Positive clause after every session of generated histories; "
+            "negative clause by injected faults: sampled faults (stage "
+            "faults) and, per generated dataset, every byte offset and every "
+            "truncation length of every metadata file, head/tail/strided "
+            "offsets of every shard, all deletions, sibling swaps and "
+            "rollbacks (stage sweep). Datasets are sampled; within a dataset "
+            "the metadata-file offsets are enumerated completely.",
+            "A fault creates an obligation only if reference digests "
+            "(hashlib one-shot, own XXH32/64, one-shot XXH3) differ from the "
+            "recorded ones; description-file faults only with expected root "
+            "checksums supplied.", "5 C05"),
+    "C08": ("exploration",
+            "Hypothesis-generated session histories vs a reference model of "
+            "written ids (multiset + content per id) after every session",
+            "Generated histories incl. reused/nested/ancestor sub-directories "
+            "and create-again; every session must complete, every split must "
+            "read back exactly the model multiset with unchanged content on "
+            "the kept and a fresh handle; create on an existing dataset must "
+            "be refused with the tree byte-identical.",
+            "Reads use the synchronous unshuffled reader; the model only "
+            "records what was written.", "5 C08"),
+    "C16": ("exploration",
+            "differential: hash_checksums and every stored checksum vs "
+            "independent reference digests (hashlib one-shot, own pure-Python "
+            "XXH32/XXH64, one-shot XXH3-128 + published vectors)",
+            "Generated files around every multiple of the 128 KiB buffer x "
+            "content kinds x algorithm tuples with repetition; a size-grid "
+            "enumeration x 13 algorithms; and every checksum stored in the "
+            "metadata tree / returned by write_config after every session of "
+            "generated histories compared with the reference digest of the "
+            "final on-disk bytes in configured order.",
+            "XXH3 core of the xxhash wheel is trusted (cross-checked on "
+            "published vectors); hashlib one-shot is trusted.", "5 C16"),
 }
 
 NOT_YET = {}
